@@ -3,6 +3,7 @@ package main
 import (
 	"fmt"
 	"go/token"
+	"go/types"
 	"strings"
 
 	"golang.org/x/tools/go/ssa"
@@ -174,36 +175,67 @@ func runC13(w *World, r *Report) {
 	// end of stream is io.EOF itself: an error item whose chain merely contains io.EOF is a failure and must
 	// not end the stream silently
 	r.Rule("C13.eof-identity", "framework code recognises end-of-stream by identity (err == io.EOF), never by errors.Is", 8)
+	eofIdentityCheck(w, r, "C13.eof-identity", "compose", "schema", "flow", "internal", "components", "callbacks", "utils")
+
+	// errors of the framework's own run-path functions are never discarded
+	r.Rule("C13.no-dropped-error", "on the run path of package compose, the error result of a call to a module function is tested, returned or stored — never discarded", 60)
 	{
-		isEOF := func(v ssa.Value) bool {
-			if mi, ok := v.(*ssa.MakeInterface); ok {
-				v = mi.X
+		errT := types.Universe.Lookup("error").Type()
+		n := 0
+		for _, fn := range w.RepoFuncs("compose") {
+			if !(reach[fn] || reach[topFunc(fn)]) {
+				continue
 			}
-			u, ok := v.(*ssa.UnOp)
-			if !ok {
-				return false
-			}
-			g, ok := u.X.(*ssa.Global)
-			return ok && g.Pkg != nil && g.Pkg.Pkg.Path() == "io" && g.Name() == "EOF"
-		}
-		for _, fn := range w.RepoFuncs("compose", "schema", "flow", "internal", "components", "callbacks", "utils") {
-			n := 0
+			seen := map[string]int{}
 			instrs(fn, func(in ssa.Instruction) {
-				switch x := in.(type) {
-				case *ssa.BinOp:
-					if (x.Op == token.EQL || x.Op == token.NEQ) && (isEOF(x.X) || isEOF(x.Y)) {
-						n++
-						r.OK("C13.eof-identity", fmt.Sprintf("end-of-stream test #%d in %s", n, w.fname(fn)), x.Pos(), "identity comparison with io.EOF")
+				c, ok := in.(*ssa.Call)
+				if !ok {
+					return
+				}
+				sc := staticCallee(c)
+				if sc == nil || !w.inRepo(sc) {
+					return
+				}
+				sig := sc.Signature
+				if sig.Results().Len() == 0 || !types.Identical(sig.Results().At(sig.Results().Len()-1).Type(), errT) {
+					return
+				}
+				n++
+				var ev ssa.Value
+				if sig.Results().Len() == 1 {
+					ev = c
+				} else if e := extractOf(c, sig.Results().Len()-1); e != nil {
+					ev = e
+				}
+				used := false
+				if ev != nil {
+					for _, v := range aliasesThroughCells(ev) {
+						if refs := v.Referrers(); refs != nil {
+							for _, ref := range *refs {
+								switch ref.(type) {
+								case *ssa.BinOp, *ssa.Return, *ssa.Phi, *ssa.Store, *ssa.MakeInterface, ssa.CallInstruction, *ssa.ChangeInterface:
+									used = true
+								}
+							}
+						}
 					}
-				case *ssa.Call:
-					name := calleeFullName(x)
-					if (name == "errors.Is" || name == "errors.As") && len(x.Call.Args) == 2 && isEOF(x.Call.Args[1]) {
-						n++
-						r.Fail("C13.eof-identity", fmt.Sprintf("end-of-stream test #%d in %s", n, w.fname(fn)), x.Pos(), "errors.Is(err, io.EOF) treats every error that wraps io.EOF as the end of the stream: a node failure delivered as such an error item is swallowed and the run succeeds with truncated output")
-					}
+				}
+				base := w.fname(fn) + " calls " + sc.Name()
+				seen[base]++
+				construct := base
+				if seen[base] > 1 {
+					construct = fmt.Sprintf("%s #%d", base, seen[base])
+				}
+				if used {
+					r.OK("C13.no-dropped-error", construct, c.Pos(), "error result used")
+				} else if reason, ok := droppedErrExceptions[base]; ok {
+					r.Except("C13.no-dropped-error", construct, c.Pos(), reason)
+				} else {
+					r.Fail("C13.no-dropped-error", construct, c.Pos(), "the error returned by "+sc.Name()+" is discarded: a failure (a failed sibling task found while classifying late finishers, a broken channel update …) is swallowed and the run reports success / a plain interrupt")
 				}
 			})
 		}
+		_ = n
 	}
 
 	// node-path
@@ -396,3 +428,39 @@ var recoverCloseOwners = map[string]string{
 	"(*schema.streamReaderWithConvert[T]).toStream$1": "the forwarding goroutine owns its source: toStream hands srw over to the goroutine and nothing else closes it (C08.forwarder-protocol requires exactly this close on every exit)",
 	"(*schema.childStreamReader[T]).toStream$1":       "the forwarding goroutine owns its child reader; the close is counted (atomic) by the parent (C08.copy-cell)",
 }
+
+// eofIdentityCheck: every end-of-stream test in the given packages compares with io.EOF by identity.
+func eofIdentityCheck(w *World, r *Report, rule string, pkgs ...string) {
+	isEOF := func(v ssa.Value) bool {
+		if mi, ok := v.(*ssa.MakeInterface); ok {
+			v = mi.X
+		}
+		u, ok := v.(*ssa.UnOp)
+		if !ok {
+			return false
+		}
+		g, ok := u.X.(*ssa.Global)
+		return ok && g.Pkg != nil && g.Pkg.Pkg.Path() == "io" && g.Name() == "EOF"
+	}
+	for _, fn := range w.RepoFuncs(pkgs...) {
+		n := 0
+		instrs(fn, func(in ssa.Instruction) {
+			switch x := in.(type) {
+			case *ssa.BinOp:
+				if (x.Op == token.EQL || x.Op == token.NEQ) && (isEOF(x.X) || isEOF(x.Y)) {
+					n++
+					r.OK(rule, fmt.Sprintf("end-of-stream test #%d in %s", n, w.fname(fn)), x.Pos(), "identity comparison with io.EOF")
+				}
+			case *ssa.Call:
+				name := calleeFullName(x)
+				if (name == "errors.Is" || name == "errors.As") && len(x.Call.Args) == 2 && isEOF(x.Call.Args[1]) {
+					n++
+					r.Fail(rule, fmt.Sprintf("end-of-stream test #%d in %s", n, w.fname(fn)), x.Pos(), "errors.Is(err, io.EOF) treats every error that wraps io.EOF as the end of the stream: a node failure delivered as such an error item is swallowed and the run succeeds with truncated output")
+				}
+			}
+		})
+	}
+
+}
+
+var droppedErrExceptions = map[string]string{}
